@@ -565,23 +565,65 @@ def monotone(expr: ast.AST, var: str, nonneg_var=False) -> Optional[int]:
     return go(expr)[0]
 
 
-def spread_direction(ctx, cls: ClassInfo):
-    """(attribute set by set_adaptable_parameter, direction of the attribute in the adaptable value,
-    direction of the proposal spread in the attribute, description)."""
+def _inline_properties(cls: ClassInfo, expr, depth=0):
+    """replace `self.<p>` by the expression a single-return property getter <p> of the class returns (tuning_parameter -> self._scaler)"""
+    import copy
+
+    class T(ast.NodeTransformer):
+        def visit_Attribute(self_, n):
+            self_.generic_visit(n)
+            if isinstance(n.ctx, ast.Load) and isinstance(n.value, ast.Name) and n.value.id == 'self' and depth < 3:
+                try:
+                    g = cls.resolve(n.attr, 'getter')
+                except Exception:
+                    g = None
+                if g:
+                    body = [b for b in g[1].body if not (isinstance(b, ast.Expr) and isinstance(b.value, ast.Constant))]
+                    if len(body) == 1 and isinstance(body[0], ast.Return) and body[0].value is not None:
+                        return _inline_properties(cls, copy.deepcopy(body[0].value), depth + 1)
+            return n
+    return T().visit(copy.deepcopy(expr))
+
+
+def setter_store(cls: ClassInfo):
+    """(setter function, its value parameter, target attribute node, stored expression in terms of the parameter): the single store of set_adaptable_parameter,
+    followed through one delegation `self.m(<expr>)` to a method whose body is the single store `self.attr = <param>`."""
+    import copy
     r = cls.resolve('set_adaptable_parameter')
     if r is None:
         raise Unsupported(cls.node, 'no set_adaptable_parameter')
     fn = r[1]
     var = fn.args.args[1].arg
     stores = [st for st in ast.walk(fn) if isinstance(st, ast.Assign)]
-    if len(stores) != 1:
-        raise Unsupported(fn, 'set_adaptable_parameter is not a single store')
-    tgt = stores[0].targets[0]
+    if len(stores) == 1:
+        return fn, var, stores[0].targets[0], stores[0].value
+    calls = [st.value for st in fn.body if isinstance(st, ast.Expr) and isinstance(st.value, ast.Call) and self_attr(st.value.func)]
+    if not stores and len(calls) == 1 and len(calls[0].args) == 1 and not calls[0].keywords:
+        r2 = cls.resolve(calls[0].func.attr)
+        if r2 is not None and len(r2[1].args.args) == 2:
+            inner = r2[1]
+            st2 = [st for st in ast.walk(inner) if isinstance(st, ast.Assign)]
+            if len(st2) == 1:
+                p2 = inner.args.args[1].arg
+
+                class Sub(ast.NodeTransformer):
+                    def visit_Name(self_, n):
+                        if n.id == p2 and isinstance(n.ctx, ast.Load):
+                            return copy.deepcopy(calls[0].args[0])
+                        return n
+                return fn, var, st2[0].targets[0], Sub().visit(copy.deepcopy(st2[0].value))
+    raise Unsupported(fn, 'set_adaptable_parameter is not a single store')
+
+
+def spread_direction(ctx, cls: ClassInfo):
+    """(attribute set by set_adaptable_parameter, direction of the attribute in the adaptable value,
+    direction of the proposal spread in the attribute, description)."""
+    fn, var, tgt, stored = setter_store(cls)
     attr_text = ast.unparse(tgt)
     # adaptable_parameter getter tells whether the adaptable value is non-negative (sqrt(...))
     g = cls.resolve('adaptable_parameter', 'getter')
     nonneg = bool(g) and any(isinstance(n, ast.Call) and (dotted_name(n.func) or '').endswith('sqrt') for n in ast.walk(g[1]))
-    d1 = monotone(stores[0].value, var, nonneg)
+    d1 = monotone(stored, var, nonneg)
     # spread in the attribute
     d2, how = None, ''
     attr = tgt.attr
@@ -639,13 +681,11 @@ def inverse_pair(cls: ClassInfo):
     g = cls.resolve('adaptable_parameter', 'getter')
     if r is None or g is None:
         raise Unsupported(cls.node, 'getter/setter pair not found')
-    fn = r[1]
-    var = fn.args.args[1].arg
-    stores = [st for st in ast.walk(fn) if isinstance(st, ast.Assign)]
+    fn, var, tgt_, stored = setter_store(cls)
     rets = [n for n in ast.walk(g[1]) if isinstance(n, ast.Return)]
-    if len(stores) != 1 or len(rets) != 1:
+    if len(rets) != 1:
         raise Unsupported(fn, 'getter/setter not single expressions')
-    attr_text = ast.unparse(stores[0].targets[0])
+    attr_text = ast.unparse(tgt_)
 
     def f_atom(e):
         if isinstance(e, ast.Name) and e.id == var:
@@ -657,13 +697,13 @@ def inverse_pair(cls: ClassInfo):
             if isinstance(a, ast.UnaryOp) and isinstance(a.op, ast.USub) and isinstance(a.operand, ast.Name) and a.operand.id == var:
                 return Rat.const(1) / Rat.sym('E')
         return None
-    f = ToRat(f_atom)(stores[0].value)
+    f = ToRat(f_atom)(stored)
 
     def g_atom(e):
         if ast.unparse(e) == attr_text:
             return Rat.sym('t')
         return None
-    rv = rets[0].value
+    rv = _inline_properties(cls, rets[0].value)
     c = 1
     if isinstance(rv, ast.UnaryOp) and isinstance(rv.op, ast.USub):
         c, rv = -1, rv.operand
